@@ -402,13 +402,13 @@ Inductive sub : value -> value -> Prop :=
 (* what sub means for reads: a value read from r at a key path is contained
    in the value read from d; when it is not a document it is equal *)
 Lemma sub_dget r d p :
-  sub r d -> nodup_keys r = true -> is_missing (dget r p) = false -> sub (dget r p) (dget d p).
+  sub r d -> is_missing (dget r p) = false -> sub (dget r p) (dget d p).
 Proof.
-  revert r d. induction p as [|k p IH]; intros r d Hs Hnd Hm; [exact Hs|].
+  revert r d. induction p as [|k p IH]; intros r d Hs Hm; [exact Hs|].
   inversion Hs as [|rf df Hf]; subst; [apply sub_refl|].
   cbn [dget] in *. destruct (lookup rf k) as [x|] eqn:El; [|discriminate].
   destruct (Hf k x (lookup_in _ _ _ El)) as [x' [El' Hx]]. rewrite El'.
-  apply IH; [exact Hx|exact (nodup_keys_lookup _ _ _ Hnd El)|exact Hm].
+  apply IH; [exact Hx|exact Hm].
 Qed.
 
 Lemma sub_leaf v w : sub v w -> (forall f, v <> VDoc f) -> v = w.
